@@ -170,3 +170,51 @@ def dominated_by_call(f, node, callee_names, dom=None, idx=None):
         if cb != hb and cb in dom.get(hb, ()):
             return True
     return False
+
+
+def edge_actions(f, B, i, limit=6):
+    """Root statements executed on edge i of branch block B before control merges or
+    branches again, and how the chain ends: ('return'|'break'|'continue'|'branch'|'merge'|'noreturn')."""
+    out = []
+    cur = B.succs[i]
+    steps = 0
+    while cur is not None and steps < limit:
+        X = f.blocks[cur]
+        steps += 1
+        if steps > 1 and len(X.preds) > 1:
+            return out, "merge"
+        if steps == 1 and len(X.preds) > 1:
+            # the edge goes straight to a join (e.g. loop exit / after-if)
+            return out, "merge"
+        out += X.roots
+        if X.noreturn:
+            return out, "noreturn"
+        if any(r["k"] == "ReturnStmt" for r in X.roots):
+            return out, "return"
+        if X.termk in ("BreakStmt", "ContinueStmt"):
+            return out, "break" if X.termk == "BreakStmt" else "continue"
+        if X.cond is not None and len(X.succs) == 2:
+            return out, "branch"
+        nx = [s for s in X.succs if s is not None]
+        if len(nx) != 1:
+            return out, "end"
+        cur = nx[0]
+    return out, "end"
+
+
+def in_loop_cond(f, B):
+    """True if branch block B is the condition of a loop (one successor leads back to B)."""
+    for i, s in enumerate(B.succs):
+        if s is not None and B.id in CFG.reachable_from(f, s):
+            return i
+    return None
+
+
+def decl_inits(f):
+    d = {}
+    for n in walk(f.body):
+        if n["k"] == "DeclStmt":
+            for x in n["decls"]:
+                if x.get("init") is not None:
+                    d[x["name"]] = x["init"]
+    return d
